@@ -63,7 +63,7 @@ def observe(ctx: fw.Ctx, hists):
                 continue
             inp = {"doc": h.text, "ops": [list(x.op) for x in h.recs], "at": list(r.op), "before": r.before_text,
                    "output": r.out}
-            why = must_reject(r)
+            why = must_reject(r, first=r is h.recs[0])
             if why:
                 ctx.fail({"clause": "accepted", "why": why, "op": r.op[0]}, inp,
                          f"{r.op!r} on {r.before_text!r} cannot be applied ({why}) but succeeded: {r.out!r}")
@@ -84,7 +84,7 @@ def observe(ctx: fw.Ctx, hists):
                     break
 
 
-def must_reject(r) -> str | None:
+def must_reject(r, first: bool = True) -> str | None:
     """why the operation cannot be applied, judged without the implementation: malformed path,
     invalid value, overwrite/removal of an attrpath root"""
     from ..oracle import cstread
@@ -99,8 +99,8 @@ def must_reject(r) -> str | None:
             return "invalid-value"
     if path.startswith("@"):
         return None
-    if cstread.ts_parse(r.before_text).has_error:
-        return "erroneous-source"
+    if first and cstread.ts_parse(r.before_text).has_error:
+        return "erroneous-source"  # (only the text that was parsed counts; a later text is C05's output-parses)
     try:
         names = tuple(ep.split_path(path))
     except Exception:  # noqa: BLE001
